@@ -148,7 +148,8 @@ def run(chk, replay=None):
         for msg in connlib.transparency(tr1, tr2):
             orc_bad.append((c, len(c.ops) - 1, "faults are not a mere delay: " + msg))
         # the stream / notification oracles must hold under faults as well
-        for orc in (connlib.oracle_c01, connlib.oracle_c13):
+        # (C03's clauses are the life-cycle part: a fault must not cost the peer its end-of-stream or a DOWN)
+        for orc in (connlib.oracle_c01, connlib.oracle_c13, connlib.oracle_c03):
             for (i, key, msg) in orc(connlib.Trace(c, li)):
                 if key is None:
                     orc_bad.append((c, i, msg))
